@@ -49,6 +49,10 @@ pub (super) struct JobQueueCore {
 
     /// The threads that are blocked in `sync()` waiting for this queue to be run elsewhere
     pub (super) wake_blocked: Vec<Weak<BlockedSync>>,
+
+    /// The tasks that polled a future while this queue was being run elsewhere (they're polled again when the queue is handed back
+    /// with work left on it, as they may be the only ones who can run it)
+    pub (super) wake_futures: Vec<task::Waker>,
 }
 
 ///
@@ -84,6 +88,7 @@ impl JobQueue {
                 queue:              VecDeque::new(),
                 state:              QueueState::Idle,
                 wake_blocked:       vec![],
+                wake_futures:       vec![],
             })
         }
     }
